@@ -3,12 +3,13 @@
 
    The model (C15/Model.v) mirrors odl/discr/discr_utils.py:
      cell_index / norm_dist   = _Interpolator._find_indices (searchsorted - 1, clamped to [0, n-2])
-     weights_edge / axis_data = _compute_nearest_weights_edge, _compute_linear_weights_edge
+     weights_edge / axis_data = _compute_nearest_weights_edge, _compute_linear_weights_edge (regenerated)
      corner_sum               = _PerAxisInterpolator._evaluate (sum over the 2^d corners)
      nearest_index/_point     = _NearestInterpolator._evaluate
      peraxis_points / _mesh   = point-array / mesh-grid calling conventions
      collocate                = point_collocation(func, space.meshgrid)
-   and is tied to the current source by the correspondence run at Q (harness/c15.py).
+   and is tied to the current source by the translator (see below) and the correspondence run
+   at Q (harness/c15.py).
 
    Vocabulary (definitions in C15/Proofs.v, repeated here for the reader):
      Asc c            : forall i < j < length c, c_i < c_j            (strictly ascending nodes)
